@@ -2,7 +2,7 @@
 From Coq Require Import List Arith Bool NArith.
 From FFSM2 Require Import Model.TaskList Model.BitArray Model.BitStream Model.Plan Model.Ancestors Model.Machine
   Proofs.BitArrayProofs Proofs.MachineFrame Proofs.MachinePlan Proofs.MachineLife Proofs.GuardProofs Proofs.CycleProofs Proofs.PlanStep
-  Proofs.SerialProofs Proofs.LogProofs Proofs.MachineTop.
+  Proofs.SerialProofs Proofs.LogProofs Proofs.MachineTop Model.Multi Generated.InitFacts Proofs.ConstructProofs Proofs.LifeMonitor Proofs.ActivationRounds Proofs.IndexSafety.
 Import ListNotations.
 
 (* at most SUBSTITUTION_LIMIT guard rounds per processing step, whatever the guards do *)
@@ -84,4 +84,57 @@ Theorem C04_activation :
          (exists l : list (event P), tr P s' = l ++ tr P s /\ life_shape P cfg INVALID (active P (co P s')) l).
 Proof. exact (initial_enter_spec). Qed.
 Print Assumptions C04_activation.
+
+(* activation: at most SUBSTITUTION_LIMIT redirection rounds *)
+Theorem C04_activation_rounds_le_limit :
+  forall (P : Type) (cfg : config) (orc : oracle P) (cur : transition P) (s : mstate P),
+         length (iloop_rounds P cfg orc (c_limit cfg) cur s) <= c_limit cfg.
+Proof. exact (initial_rounds_le_limit). Qed.
+Print Assumptions C04_activation_rounds_le_limit.
+
+(* activation = one evaluation of the initial entry guards (verdict ignored), at most SUBSTITUTION_LIMIT rounds, then entry into the last survivor's destination or state 0 *)
+Theorem C04_activation_exact :
+  forall (P : Type) (cfg : config) (orc : oracle P) (PI : plan_data P -> Prop),
+         plan_inv_ok P cfg PI ->
+         wf_oracle P cfg orc ->
+         wf_cfg cfg ->
+         forall s : mstate P,
+         active P (co P s) = INVALID ->
+         RW P cfg (co P s) ->
+         PI (plan P (co P s)) ->
+         let rounds := act_rounds P cfg orc s in
+         let surv := act_survivor P cfg orc s in
+         let s' := initial_enter P cfg orc s in
+         length rounds <= c_limit cfg /\
+         Forall (fun r : round P => t_valid P (r_pend P r) = true) rounds /\
+         (t_valid P surv = true -> t_dest P surv < c_n cfg) /\
+         active P (co P s') = (if t_valid P surv then t_dest P surv else 0) /\
+         active P (co P s') < c_n cfg /\
+         requested P (co P s') = INVALID /\
+         previous P (co P s') = (if c_history cfg then surv else previous P (co P s)) /\
+         (exists l0 lr lc : list (event P),
+            tr P (act_s2 P cfg orc s) = l0 ++ tr P s /\
+            MachineFrame.quiet P cfg INVALID l0 /\
+            tr P (act_s3 P cfg orc s) = lr ++ tr P (act_s2 P cfg orc s) /\
+            MachineFrame.quiet P cfg INVALID lr /\
+            tr P s' = lc ++ tr P (act_s3 P cfg orc s) /\ change P cfg INVALID (active P (co P s')) lc).
+Proof. exact (initial_enter_rounds). Qed.
+Print Assumptions C04_activation_exact.
+
+(* the number of root entry-guard evaluations during activation is one plus the rounds that reached their guards, at most 1 + SUBSTITUTION_LIMIT *)
+Theorem C04_activation_guard_evaluations :
+  forall (P : Type) (cfg : config) (orc : oracle P) (PI : plan_data P -> Prop),
+         plan_inv_ok P cfg PI ->
+         wf_oracle P cfg orc ->
+         wf_cfg cfg ->
+         forall s : mstate P,
+         active P (co P s) = INVALID ->
+         RW P cfg (co P s) ->
+         PI (plan P (co P s)) ->
+         exists l : list (event P),
+           tr P (initial_enter P cfg orc s) = l ++ tr P s /\
+           rg_count P l = rg_per_eval cfg * (1 + guarded P (act_rounds P cfg orc s)) /\
+           rg_count P l <= 1 + c_limit cfg.
+Proof. exact (initial_enter_guard_evals). Qed.
+Print Assumptions C04_activation_guard_evaluations.
 
